@@ -14,7 +14,11 @@
              that no path leaves early (break / return / raise => C07.STEP: the later series miss the tick).
   C07.ONE    the shared resampler's resample() loop is started only from the actor's supervising loop,
              only when the previous task is absent or finished, and the task variable is only reset
-             when the task is known finished (two loops on one resampler repeat/skip timestamps).
+             when the task is known finished (two loops on one resampler repeat/skip timestamps).  The
+             start is bound by role: `create_task(<coroutine of self._resampler.resample>)` as evaluated on the
+             paths of the loop body - in place, through a local, in a private helper executed on the path, or
+             with the bound method (or a zero-argument lambda) handed uncalled to a helper that calls it; every
+             other mention of `self._resampler.resample` in the actor is a start from somewhere else.
   C07.ONCE   a series is handed to Resampler.add_timeseries at most once while it is registered (the
              resampler only de-duplicates by source object): a call site that can run repeatedly (it is
              reachable from a loop) is dominated by `name not in REG`, records `name` in REG on the same
@@ -445,40 +449,130 @@ def _pre_loop_env(fn_node: ast.AST, loop: ast.AST) -> dict[str, ast.AST]:
 ACTOR = "microgrid._resampling:ComponentMetricsResamplingActor"
 
 
-def check_one(run: Run, prog: Program) -> None:
+_ACTOR_RESAMPLE = "self._resampler.resample"
+
+
+def _starts_resampler(arg: ast.AST) -> bool:
+    """`arg` evaluates to the coroutine of the actor's resampler loop: `self._resampler.resample()`, also when the
+    bound method went through a zero-argument lambda (`(lambda: self._resampler.resample())()`)."""
+    if not (isinstance(arg, ast.Call) and not arg.args and not arg.keywords):
+        return False
+    f = arg.func
+    if isinstance(f, ast.Lambda):
+        a = f.args
+        return not (a.args or a.posonlyargs or a.kwonlyargs or a.vararg or a.kwarg) and _starts_resampler(f.body)
+    return u(f) == _ACTOR_RESAMPLE
+
+
+def _bindings_before(fn_node: ast.AST, loop: ast.AST) -> dict[str, ast.AST]:
+    """Locals bound exactly once in the function, purely, by a statement that precedes `loop` in program order
+    (also when the loop sits in a `try` / `with` / `if`): the loop body sees through them (`start =
+    self._resampler.resample` before the supervising loop)."""
+    stores: dict[str, int] = {}
+    for n in ast.walk(fn_node):
+        if isinstance(n, ast.Name) and isinstance(n.ctx, (ast.Store, ast.Del)):
+            stores[n.id] = stores.get(n.id, 0) + 1
+    env: dict[str, ast.AST] = {}
+
+    class S(ast.NodeTransformer):
+        def visit_Name(self, n: ast.Name) -> ast.AST:  # noqa: N802
+            return env.get(n.id, n) if isinstance(n.ctx, ast.Load) else n
+
+    def scan(suite: list[ast.stmt]) -> bool:
+        import copy as _copy
+
+        for s in suite:
+            if s is loop:
+                return True
+            if any(n is loop for n in ast.walk(s)):
+                for field in ("body", "orelse", "finalbody"):
+                    if scan(getattr(s, field, []) or []):
+                        return True
+                return True
+            if isinstance(s, (ast.Assign, ast.AnnAssign)) and s.value is not None:
+                tg = s.targets[0] if isinstance(s, ast.Assign) and len(s.targets) == 1 else getattr(s, "target", None)
+                if isinstance(tg, ast.Name) and stores.get(tg.id) == 1 and not any(
+                        isinstance(n, (ast.Await, ast.Call, ast.NamedExpr)) for n in ast.walk(s.value)):
+                    env[tg.id] = S().visit(_copy.deepcopy(s.value))
+        return False
+
+    scan(list(getattr(fn_node, "body", [])))
+    return env
+
+
+def check_one(run: Run, prog: Program) -> None:  # noqa: C901
     """Only one Resampler.resample() loop is ever alive on a resampler (two loops share the timer and
-    _window_end: a late burst of ticks makes them emit one timestamp twice and skip another)."""
+    _window_end: a late burst of ticks makes them emit one timestamp twice and skip another).
+
+    The start is bound by role: `asyncio.create_task(<coroutine of self._resampler.resample>)` as it is evaluated
+    on the paths of the supervising loop's body - in place, through a local, inside a private helper of the
+    actor / its module (executed on the path with its arguments), or with the bound method handed uncalled to
+    such a helper that calls it (`_ensure_running(task, self._resampler.resample, ...)`)."""
+    from ..engine.sympath import Path as SymPath, SymExec
+
     fn = prog.func(f"{ACTOR}._run")
     run.analysed(fn.qual)
-    sites = [(f, c) for f, c in prog.attr_call_sites("resample")
-             if isinstance(c.func, ast.Attribute) and u(c.func.value) == "self._resampler"
-             and f.cls is not None and f.cls.qual == ACTOR]
-    for f, c in sites:
-        run.check(f.qual == fn.qual, "C07.ONE", f.qual, c,
-                  "the resampling loop of the actor's resampler is started from somewhere else than the "
-                  "supervising loop", node=c, file=f.file)
-    if not any(f.qual == fn.qual for f, _ in sites):
-        raise AnalysisError(f"{fn.qual}: self._resampler.resample() not found")
-    node = inline_helpers(prog, fn)
+    actor = prog.cls(ACTOR)
+    # private helpers are executed on the paths with their arguments (any number of returns, parameters
+    # re-bound inside); only a loop that moved into a helper as a whole is read into _run first
+    node: Any = fn.node
+    if not any(isinstance(s, ast.While) for s in body_walk(node)):
+        node = inline_helpers(prog, fn)
     loops = [s for s in body_walk(node) if isinstance(s, ast.While)]
     if len(loops) != 1:
         raise AnalysisError(f"{fn.qual}: supervising loop not found")
 
     def is_start(c: ast.Call) -> bool:
-        return u(c.func).endswith("create_task") and len(c.args) >= 1 and u(c.args[0]) == "self._resampler.resample()"
+        return u(c.func).endswith("create_task") and len(c.args) >= 1 and _starts_resampler(c.args[0])
 
-    # the variable that holds the running task
-    holders = {t.id for s in body_walk(loops[0]) if isinstance(s, (ast.Assign, ast.AnnAssign)) and s.value is not None
-               and isinstance(s.value, ast.Call) and is_start(s.value)
-               for t in (s.targets if isinstance(s, ast.Assign) else [s.target]) if isinstance(t, ast.Name)}
+    bound_to_start: set[str] = set()
+
+    class Walker(SymExec):
+        """Records which local of the supervising loop itself (not of a helper executed on the path) a start
+        is bound to, also when a later statement of the iteration re-binds it."""
+
+        def _bind(self, p: Any, target: ast.AST, value: ast.AST, lineno: int) -> None:
+            if not self.stack and isinstance(target, ast.Name) and isinstance(value, ast.Call) and is_start(value):
+                bound_to_start.add(target.id)
+            super()._bind(p, target, value, lineno)
+
+    se = Walker(follow=follower(prog, fn))
+    p0 = SymPath()
+    p0.env = _bindings_before(node, loops[0])
+    paths = se.block(p0, list(loops[0].body))
+    reached = {fn.name} | set(getattr(node, "_spliced", ())) | set(se.followed)
+
+    # every mention of the resampler's loop (called or handed on as a bound method) belongs to the supervising loop
+    mentions = [(m, n) for m in actor.methods.values() for n in ast.walk(m.node)
+                if isinstance(n, ast.Attribute) and u(n) == _ACTOR_RESAMPLE]
+    for m, n in mentions:
+        ok = m.qual == fn.qual
+        if not ok and m.name in reached:
+            # a private helper read into the supervising loop: nobody else may run it
+            ok = not [c for c, _ in prog.callers(m.qual) if c.qual != fn.qual and c.name not in reached]
+        run.check(ok, "C07.ONE", m.qual, n,
+                  "the resampling loop of the actor's resampler is started from somewhere else than the "
+                  "supervising loop", node=n, file=m.file)
+    if not any(m.name in reached for m, _ in mentions):
+        raise AnalysisError(f"{fn.qual}: self._resampler.resample() not found")
+
+    # the variable that holds the running task: what the start is bound to when an iteration ends
+    holders = bound_to_start | {k for p, _st in paths for k, v in p.env.items() if isinstance(v, ast.Call) and is_start(v)}
+    if len(holders) > 1:
+        # a helper's own local read into the loop: the holder is the one the guard of the start looks at
+        import re as _re
+
+        tested = {h for h in holders for p, _st in paths if p.calls(is_start)
+                  for k, *_ in p.conds if _re.search(rf"(?<![\w.]){_re.escape(h)}(?!\w)", repr(k))}
+        holders = tested or holders
     if len(holders) != 1:
         raise AnalysisError(f"{fn.qual}: variable holding the resampling task not identified ({sorted(holders)})")
     V = next(iter(holders))
     n = 0
-    for p, _st in sym_block(loops[0].body):
+    for p, _st in paths:
         where = dict(node=fn.node, file=fn.file, path=p.describe())
         starts = p.calls(is_start)
-        absent = p.outcome(("is", frozenset({V, "None"}))) is True
+        absent = p.outcome(("is", frozenset({V, "None"}))) is True or p.outcome(("truthy", V)) is False
         finished = p.outcome(("truthy", f"{V}.done()")) is True
         if starts:
             n += 1
@@ -488,6 +582,8 @@ def check_one(run: Run, prog: Program) -> None:
                       "is still running", instance=f"{fn.qual}: start guarded by absent/finished "
                       f"[{'absent' if absent else 'finished'}]", **where)
         final = p.env.get(V)
+        if isinstance(final, ast.Name) and final.id == V:
+            final = None    # handed through a helper and back unchanged
         if final is not None and not (isinstance(final, ast.Call) and is_start(final)):
             # the task is forgotten (or replaced by something else): only allowed once it is known finished
             was = {V} | {u(s.node) for s in starts}
